@@ -211,8 +211,9 @@ def run_recursion(C, P, rule, cl):
         import re as _re
         # a closure belongs to its function: `iter().find_map(|..| self.f(..))` is the recursion of f
         base = sorted({_re.sub(r'(::\{closure#\d+\})+$', '', n) for n in names})
-        if all(n in RECURSION_BOUNDED for n in base):
-            names = base
+        names = base
+        key = '+'.join(names)
+        if all(n in RECURSION_BOUNDED for n in names):
             C.ok(rule, key + '|bounded', RECURSION_BOUNDED[names[0]])
         else:
             C.fail(rule, key + '|depth-is-input-controlled', 'recursion whose depth equals the nesting depth of the document / element tree (unbounded, input controlled): deep nesting exhausts the stack and aborts the process',
